@@ -1,5 +1,6 @@
 (* C07 — search, split and count equal the brute-force definition (statements; see SearchProofs.v). *)
-From BS Require Import Prims BitsCore Search SearchProofs.
+From BS Require Import Prims BitsCore Search SearchProofs FastPath SearchTop.
+From Coq Require Import String.
 Open Scope Z_scope.
 
 Theorem C07_general_path_is_brute_force : forall d p s e ba,
@@ -20,7 +21,41 @@ Proof. exact empty_pattern_rejected. Qed.
 Theorem C07_count : forall d, bs_count d true + bs_count d false = zlen d.
 Proof. exact count_total. Qed.
 
+(* the byte fast path (bytes.find over tobytes() of the byte window) returns exactly the byte-aligned brute-force matches,
+   overlapping ones included; so both paths of BitStore.findall_msb0 meet one specification *)
+Theorem C07_fast_path_is_brute_force : forall d p s e, p <> [] -> zlen p mod 8 = 0 -> 0 <= s -> s <= e -> e <= zlen d ->
+  findall_fast d p s e = Ok (spec_matches d p s e true).
+Proof. exact fast_path_spec. Qed.
+Theorem C07_store_findall : forall d p s e ba, p <> [] -> 0 <= s -> s <= e -> e <= zlen d ->
+  findall_store_msb0 d p s e ba = Ok (spec_matches d p s e ba).
+Proof. exact findall_store_spec. Qed.
+(* the public entry points under msb0, for every start/end accepted by _validate_slice, every count and either alignment *)
+Theorem C07_findall : forall d p start stop count ba s e, p <> [] -> count_ok count -> validate_slice d start stop = Ok (s, e) ->
+  bs_findall false d p start stop count ba = Ok (take_count count (spec_matches d p s e ba)).
+Proof. exact findall_spec. Qed.
+Theorem C07_find : forall d p start stop ba s e, p <> [] -> validate_slice d start stop = Ok (s, e) ->
+  bs_find false d p start stop ba = Ok (head_opt (spec_matches d p s e ba)).
+Proof. exact find_spec. Qed.
+Theorem C07_rfind : forall d p start stop ba s e, p <> [] -> validate_slice d start stop = Ok (s, e) ->
+  bs_rfind false d p start stop ba = Ok (last_opt (spec_matches d p s e ba)).
+Proof. exact rfind_spec. Qed.
+Theorem C07_contains : forall d p, p <> [] ->
+  bs_contains false d p = Ok (match spec_matches d p 0 (zlen d) false with [] => false | _ => true end).
+Proof. exact contains_spec. Qed.
+Theorem C07_findall_sound_and_complete : forall d p start stop ba s e l,
+  p <> [] -> validate_slice d start stop = Ok (s, e) -> bs_findall false d p start stop None ba = Ok l ->
+  forall q, In q l <-> (s <= q /\ q + zlen p <= e /\ sub d q (q + zlen p) = p /\ (ba = true -> q mod 8 = 0)).
+Proof. exact findall_sound_complete. Qed.
+Example C07_overlapping_byte_matches : findall_fast (of01 "000000000000000000000000"%string) (of01 "0000000000000000"%string) 0 24 = Ok [0; 8].
+Proof. vm_compute. reflexivity. Qed.
 Print Assumptions C07_general_path_is_brute_force.
 Print Assumptions C07_find_is_lowest.
 Print Assumptions C07_empty_pattern_rejected.
 Print Assumptions C07_count.
+Print Assumptions C07_fast_path_is_brute_force.
+Print Assumptions C07_store_findall.
+Print Assumptions C07_findall.
+Print Assumptions C07_find.
+Print Assumptions C07_rfind.
+Print Assumptions C07_contains.
+Print Assumptions C07_findall_sound_and_complete.
